@@ -56,6 +56,8 @@ def execute(case: dict) -> dict:
     w = case["world"]
     from .. import viafile
     ds = viafile.hold_ds(w, W.build(w))
+    from ..cellsdrv import snapshot as _snapshot
+    _before = _snapshot(ds)
     W.bind(w, ds)
     rec = {"tid": case["tid"], "src": case["src"], "w": CD.tlc_world(w, ds), "events": []}
 
@@ -65,6 +67,7 @@ def execute(case: dict) -> dict:
                 "triangles": [[as_int(i) for i in row] for row in t.tolist()],
                 "cells": [as_int(i) for i in c.tolist()]}
     rec["events"].append({"a": "Triangulate", "obs": outcome(tri)})
+    rec["input"] = {"before": _before, "after": _snapshot(ds)}
     return rec
 
 
